@@ -18,7 +18,7 @@
 From Coq Require Import List ZArith Permutation Sorted.
 From TskVerif Require Import Base.Common C07.Model C07.ListLemmas C07.CmpLemmas C07.SortProofs
      C07.RaggedProofs C07.TopProofs C07.IdemProofs C07.PartialProofs C07.MutParentsProofs C07.SweepProofs
-     C07.IndexProofs C07.DedupProofs C07.PipelineProofs C07.SquashProofs C07.IndProofs C07.Refuted C07.Examples.
+     C07.IndexProofs C07.DedupProofs C07.PipelineProofs C07.SquashProofs C07.IndProofs C07.RepairProofs C07.Refuted C07.Examples.
 Import ListNotations.
 Open Scope Z_scope.
 
@@ -227,6 +227,73 @@ Theorem repair_parents_nearest_partial : forall Q t mds gds t1 t2 t3,
       nearest_above (parent_at (t_edges t2) (s_pos site))
                     (map m_node (site_block (t_muts t2) (Z.of_nat s))) first k (m_parent m').
 Proof. exact sort_index_parents_nearest. Qed.
+
+(* THE REPAIR PIPELINE AS ONE STATEMENT.  [consistent_input t]: edges inside [0,L) with child and
+   parent in range and the parent strictly older, no two overlapping edges of one child, sites
+   inside [0,L), mutation nodes in range — no condition on row order, duplicate site positions
+   allowed.  With references intact, well-formed ragged columns and no two edges sharing the key
+   (time[parent], parent, child, left):
+     sort(); deduplicate_sites(); sort(); build_index()          ([repair_prefix])
+   ALWAYS succeeds, and its result t4
+     - meets [valid_for_parents] (edge order accepted by TSK_CHECK_EDGE_ORDERING, both index
+       columns sorted permutations listing every edge, sites sorted, mutations sorted by site),
+     - has exactly the input's trees ([parent_at] equal at every coordinate and node),
+     - has one site row per position, strictly increasing,
+     - has the same multiset of mutation contents, and untouched nodes/individuals/populations;
+   the whole pipeline [repair] then equals compute_mutation_parents on t4, and whenever that
+   returns Ok every mutation's parent is the nearest mutation above it in the INPUT's tree at its
+   site.  The documented exception (finding 6: a child mutation row listed before its parent with
+   equal or unknown time) is exactly the case in which compute_mutation_parents does not return Ok
+   (repair_mutation_order_refuted); it is the explicit hypothesis of the last clause.
+   Not proved: equality of the decoded genotypes with an order-free definition on the input, and
+   the rest of TSK_CHECK_TREES (C02's subject). *)
+Theorem repair_pipeline : forall Q t mds gds,
+  qsorts_ok Q -> check_refs t = true -> edges_wf t mds -> migs_wf t gds -> consistent_input t ->
+  NoDup (map (edge_key (map n_time (t_nodes t))) (t_edges t)) ->
+  exists t4 insE outsE,
+    repair_prefix Q t = Ok t4 /\ valid_for_parents t4 insE outsE /\
+    (forall x c, parent_at (t_edges t4) x c = parent_at (t_edges t) x c) /\
+    StronglySorted (fun a b => s_pos a < s_pos b) (t_sites t4) /\
+    Permutation (map mut_content (t_muts t)) (map mut_content (t_muts t4)) /\
+    same_nodes_inds_pops t t4 /\
+    repair Q t = compute_mutation_parents t4 /\
+    forall t5, compute_mutation_parents t4 = Ok t5 ->
+      forall s site k, nth_error (t_sites t4) s = Some site ->
+        (k < length (site_block (t_muts t4) (Z.of_nat s)))%nat ->
+        let first := site_first (t_muts t4) (Z.of_nat s) in
+        exists m', nth_error (t_muts t5) (Z.to_nat first + k) = Some m' /\
+          nearest_above (parent_at (t_edges t) (s_pos site))
+                        (map m_node (site_block (t_muts t4) (Z.of_nat s))) first k (m_parent m').
+Proof. exact repair_pipeline_proof. Qed.
+
+(* Python's tc.sort() passes a zero bookmark, the C API default is NULL: same result *)
+Theorem py_sort_equals_null_bookmark : forall Q t, qsorts_ok Q -> py_sort Q 0 0 0 t = table_sort Q None t.
+Proof. exact py_sort_zero_eq. Qed.
+
+(* error directions.  The per-site body of compute_mutation_parents returns Ok, the documented
+   TSK_ERR_MUTATION_PARENT_AFTER_CHILD, or (model only) runs out of walk fuel — never another
+   error and never an out-of-bounds access; tsk_squash_edges returns Ok or
+   TSK_ERR_BAD_EDGES_CONTRADICTORY_CHILDREN, and then two input edges of one (parent, child)
+   really overlap *)
+Theorem mutation_parents_site_error_is_parent_after_child :
+  forall fuel parent par (rank : Z -> Z) M nodes_of first bottom mparent fm c,
+  arr_is parent par ->
+  (forall v, 0 <= v < zlen parent -> par v = NULL \/ (0 <= par v < zlen parent /\ rank v < rank (par v))) ->
+  (forall v, 0 <= v < zlen parent -> rank v <= M) ->
+  arr_is bottom (fun _ => NULL) -> zlen parent = zlen bottom ->
+  arr_is mparent fm -> (forall i, in_block first (zlen nodes_of) i -> fm i = NULL) ->
+  (forall u, In u nodes_of -> 0 <= u < zlen parent) ->
+  0 <= first -> first + zlen nodes_of <= zlen mparent ->
+  do_site fuel parent nodes_of first bottom mparent = Err c ->
+  c = E_MUTATION_PARENT_AFTER_CHILD.
+Proof. exact do_site_err. Qed.
+
+Theorem squash_error_means_overlap : forall Q edges r,
+  qsorts_ok Q -> squash_edges Q edges = r -> (forall out, r <> Ok out) ->
+  r = Err E_BAD_EDGES_CONTRADICTORY_CHILDREN /\
+  exists a b, In a edges /\ In b edges /\ e_parent a = e_parent b /\ e_child a = e_child b /\
+              e_left a <= e_left b /\ e_left b < e_right a.
+Proof. exact squash_edges_err. Qed.
 
 (* the same for ONE tree given as a parent array (any forest), without the edge sweep *)
 Theorem mutation_parents_one_tree :
